@@ -212,6 +212,7 @@ PROPS["C04"] = {
         "C04.C04_meta_initiated_at", "C04.C04_meta_sealed_at", "C04.C04_params", "C04.C04_meta_params", "C04.C04_party",
         "C04.C04_entity_collision", "C04.C04_entity_collision_cert", "C04.C04_entity_partial_msd", "C04.C04_entity_partial_cdb",
         "C04.C04_pm_single_value", "C04.C04_pm_digest_injective", "PmInj.preimage_injective", "PmInj.lex_pre", "CertModel.segs_single", "CertModel.hexOf_inj",
+        "C04.C04_phi_ok", "C04.C04_phi_wrap_counterexample_before_repair", "C04.C04_phi_repaired", "CertModel.phiSeg_inj",
     ],
     "level_text": "Tamper evidence is proved field by field in Lean for the byte-exact model of the certificate hash pre-image (and the nested "
                   "metadata, parameter, party and protocol-message pre-images): two certificates that differ in one field have different hashes "
